@@ -307,6 +307,9 @@ func perturb(r *hlib.Rand, k *kase, tl []pkt, pf profile) ([]pkt, []string) {
 		if pf.allowFrag {
 			kinds = append(kinds, "frag")
 		}
+		if pf.edgeSwap {
+			kinds = append(kinds, "finfirst")
+		}
 		if len(kinds) == 0 {
 			break
 		}
@@ -340,6 +343,20 @@ func perturb(r *hlib.Rand, k *kase, tl []pkt, pf profile) ([]pkt, []string) {
 			} else {
 				notes = append(notes, "edgeswap")
 			}
+		case "finfirst":
+			// a payload-free FIN overtakes the preceding packet of the same sender (its last data segment)
+			var cand []int
+			for i := 1; i < len(tl); i++ {
+				if !tl[i].frag && !tl[i-1].frag && tl[i].flags&fFIN != 0 && tl[i].n == 0 && tl[i-1].dir == tl[i].dir && tl[i-1].n > 0 {
+					cand = append(cand, i)
+				}
+			}
+			if len(cand) == 0 {
+				continue
+			}
+			i := cand[r.Intn(len(cand))]
+			tl[i-1], tl[i] = tl[i], tl[i-1]
+			notes = append(notes, "finfirst")
 		case "omit":
 			i := r.Intn(len(tl))
 			if !isData(tl[i]) {
@@ -381,17 +398,20 @@ func genKase(r *hlib.Rand, pf profile) *kase {
 		ng := capFmts[k.fmtName].ng
 		k.links = pickLinks(r, ng)
 		if ng && pf.sections {
-			// several sections. section_length given: every section may have its own interfaces;
-			// section_length -1: the same interfaces in every section (see known finding pcapng-shb-section)
+			// several sections, every section may have its own interfaces; section_length -1 or given,
+			// sometimes with a section header block longer than every packet block
 			nsec = r.Range(2, 3)
-			if r.Intn(2) == 0 {
+			switch r.Intn(5) {
+			case 0, 1:
 				k.fmtName += "_len"
+			case 2:
+				k.fmtName += "_len_big"
 			}
 		}
 	}
 	var secLinks [][]string
 	for s := 1; s < nsec; s++ {
-		if capFmts[k.fmtName].len && r.Intn(2) == 0 {
+		if r.Intn(2) == 0 {
 			secLinks = append(secLinks, pickLinks(r, true))
 		} else {
 			secLinks = append(secLinks, nil)
@@ -450,32 +470,15 @@ func genKase(r *hlib.Rand, pf profile) *kase {
 	// section boundaries anywhere in the packet list (also at the ends: empty sections), so that
 	// connections span them
 	if nsec > 1 {
+		// section boundaries anywhere, also at the ends and twice at the same place (sections without packets)
 		var cutsAt []int
-		if capFmts[k.fmtName].len {
-			// section_length given: no section without packets (its last block, an interface description,
-			// would be shorter than the section header block: known finding pcapng-section-length)
-			if nsec > len(k.pkts) {
-				nsec = len(k.pkts)
-			}
-			seen := map[int]bool{}
-			for len(cutsAt) < nsec-1 {
-				c := r.Range(1, len(k.pkts)-1)
-				if !seen[c] {
-					seen[c] = true
-					cutsAt = append(cutsAt, c)
-				}
-			}
-		} else {
-			for s := 1; s < nsec; s++ {
-				cutsAt = append(cutsAt, r.Range(0, len(k.pkts)))
-			}
+		for s := 1; s < nsec; s++ {
+			cutsAt = append(cutsAt, r.Range(0, len(k.pkts)))
 		}
 		sort.Ints(cutsAt)
 		k.secs = cutsAt
-		k.secLinks = secLinks[:len(cutsAt)]
-		if len(cutsAt) > 0 {
-			k.notes = append(k.notes, fmt.Sprintf("sections%d", len(cutsAt)+1))
-		}
+		k.secLinks = secLinks
+		k.notes = append(k.notes, fmt.Sprintf("sections%d", nsec))
 	}
 	k.notes = dedup(k.notes)
 	return k
